@@ -312,7 +312,7 @@ pub fn gen_header(kind: Kind, r: &mut Rng, p_random_state: bool, cb: u8, bad_arg
                     h.sizes = vec![wsz, csz, hsz, size];
                 }
             } else {
-                h.ctor = r.below(2) as u8;
+                h.ctor = r.below(3) as u8;
             }
             if bad_args && r.chance(1, 8) {
                 match r.below(3) {
@@ -506,7 +506,7 @@ pub fn c05_grid() -> &'static Vec<Header> {
             }
         }
         // WTinyLFUCache
-        for ctor in 0..2u8 {
+        for ctor in 0..3u8 {
             for cw in 0..3usize {
                 for cp in 0..3usize {
                     for cq in 0..3usize {
